@@ -6,7 +6,9 @@ package main
 
 import (
 	"context"
+	"encoding/base64"
 	"encoding/hex"
+	"encoding/json"
 	"fmt"
 	"math"
 	"runtime"
@@ -22,6 +24,7 @@ import (
 	pspb "github.com/libp2p/go-libp2p-pubsub/pb"
 	"github.com/libp2p/go-libp2p/core/crypto"
 	"github.com/libp2p/go-libp2p/core/peer"
+	"github.com/libp2p/go-libp2p/core/record"
 
 	"github.com/bloxapp/ssv/message/validation"
 	"github.com/bloxapp/ssv/network/commons"
@@ -328,6 +331,8 @@ func genC08(run *hx.Run, r *hx.Rng) {
 	}
 	genKernels(run, r, run.N/10)
 	genFuzz(run, r, run.N*3/10)
+	genNodeInfoStruct(run, r, run.N/4)
+	hangBlock(run, r) // last: if it deadlocks the validator the harness reports and exits
 }
 
 // ---------------------------------------------------------------- arithmetic kernels (direct comparison with the model)
@@ -551,12 +556,150 @@ func runFuzzTarget(run *hx.Run, target string, b []byte) {
 	}
 }
 
+// ---- structured node records: JSON `{"Entries":[…]}` of every small length with valid / invalid / empty / nested entries,
+// also sealed in a VALID libp2p record envelope (a peer can seal any payload under the node-info domain and codec)
+
+type rawRecord struct {
+	payload []byte
+	signed  bool
+}
+
+func (r *rawRecord) Domain() string { return (&records.NodeInfo{}).Domain() }
+func (r *rawRecord) Codec() []byte {
+	if r.signed {
+		return (&records.SignedNodeInfo{NodeInfo: &records.NodeInfo{}}).Codec()
+	}
+	return (&records.NodeInfo{}).Codec()
+}
+func (r *rawRecord) MarshalRecord() ([]byte, error) { return r.payload, nil }
+func (r *rawRecord) UnmarshalRecord(b []byte) error { r.payload = b; return nil }
+
+var sealKey crypto.PrivKey
+
+func sealRaw(payload []byte, signed bool) []byte {
+	if sealKey == nil {
+		k, _, err := crypto.GenerateSecp256k1Key(strings.NewReader(strings.Repeat("seal-key-of-a-malicious-peer", 10)))
+		if err != nil {
+			return nil
+		}
+		sealKey = k
+	}
+	ev, err := record.Seal(&rawRecord{payload: payload, signed: signed}, sealKey)
+	if err != nil {
+		return nil
+	}
+	b, err := ev.Marshal()
+	if err != nil {
+		return nil
+	}
+	return b
+}
+
+func nodeInfoStructTarget(run *hx.Run, b []byte) {
+	guarded(run, "nodeinfo-struct", b, func() {
+		_ = (&records.NodeInfo{}).UnmarshalRecord(b)
+		_ = (&records.SignedNodeInfo{}).UnmarshalRecord(b)
+		_ = (&records.NodeMetadata{}).Decode(b)
+		if s := sealRaw(b, false); s != nil {
+			_ = (&records.NodeInfo{}).Consume(s)
+		}
+		if s := sealRaw(b, true); s != nil {
+			_ = (&records.SignedNodeInfo{}).Consume(s)
+		}
+	})
+}
+
+func jsonEntries(es []string) []byte {
+	b, _ := json.Marshal(map[string][]string{"Entries": es})
+	return b
+}
+
+func genEntry(r *hx.Rng, depth int) string {
+	switch r.Intn(12) {
+	case 0:
+		return ""
+	case 1:
+		return "x"
+	case 2:
+		return base64.StdEncoding.EncodeToString(r.Bytes(r.Intn(40)))
+	case 3:
+		return "!!not-base64!!"
+	case 4:
+		return fmt.Sprint(int64(r.U64()))
+	case 5:
+		return "99999999999999999999999999"
+	case 6:
+		return `{"NodeVersion":"v","ExecutionNode":"e","ConsensusNode":"c","Subnets":"` + []string{records.AllSubnets, "ff", "", "zz"}[r.Intn(4)] + `"}`
+	case 7:
+		return `{"NodeVersion":1}`
+	case 8:
+		return "{"
+	case 9, 10:
+		if depth < 2 {
+			n := r.Intn(5)
+			es := make([]string, n)
+			for i := range es {
+				es[i] = genEntry(r, depth+1)
+			}
+			return string(jsonEntries(es))
+		}
+		return "{}"
+	default:
+		return "verif"
+	}
+}
+
+func genNodeInfoStruct(run *hx.Run, r *hx.Rng, n int) {
+	// exhaustive small shapes first: every length 0..8 with a few uniform fillings
+	for l := 0; l <= 8; l++ {
+		for _, fill := range []string{"{}", "", "x", "AAAA", "1", `{"Entries":["x"]}`, `{"Entries":["","n"]}`} {
+			es := make([]string, l)
+			for i := range es {
+				es[i] = fill
+			}
+			nodeInfoStructTarget(run, jsonEntries(es))
+		}
+	}
+	for _, raw := range []string{`{}`, `{"Entries":null}`, `{"Entries":{}}`, `{"Entries":3}`, `null`, `[]`, `{"Entries":[1,2]}`, `{"Entries":[null]}`, `{"entries":["a","b","c"]}`} {
+		nodeInfoStructTarget(run, []byte(raw))
+	}
+	for i := 0; i < n; i++ {
+		l := r.Intn(9)
+		es := make([]string, l)
+		for j := range es {
+			es[j] = genEntry(r, 0)
+		}
+		if r.Chance(40) && l >= 6 {
+			// a mostly valid signed record: peer ids, timestamp, key, signature, embedded node info
+			es[0] = base64.StdEncoding.EncodeToString([]byte("sender"))
+			es[1] = base64.StdEncoding.EncodeToString([]byte("recipient"))
+			es[2] = "1700000000"
+			es[4] = base64.StdEncoding.EncodeToString([]byte{1, 2, 3})
+			inner := make([]string, r.Intn(5))
+			for j := range inner {
+				inner[j] = genEntry(r, 1)
+			}
+			es[5] = string(jsonEntries(inner))
+		}
+		b := jsonEntries(es)
+		if r.Chance(15) && len(b) > 2 {
+			b = b[:r.Intn(len(b))] // valid prefix, truncated
+		}
+		nodeInfoStructTarget(run, b)
+	}
+}
+
 func fuzzReplay(run *hx.Run, ws []string) {
 	if len(ws) < 3 {
 		return
 	}
 	if strings.HasPrefix(ws[2], "big:") {
 		run.Emit(strings.Join(ws, " "), "fz")
+		return
+	}
+	if ws[1] == "nodeinfo-struct" {
+		fuzzSetup()
+		nodeInfoStructTarget(run, unhex(ws[2]))
 		return
 	}
 	runFuzzTarget(run, ws[1], unhex(ws[2]))
